@@ -310,7 +310,7 @@ func makeScenario(rng *rand.Rand, idx int, thorough bool) *scenario {
 }
 
 // index file base names: volume discovery is by name (<base>.*.par2), so their spelling matters
-var p2Bases = []string{"arch", "backup", "data.tar", "a", "par2", "set.vol", "with space", "UPPER", "x.par2", "vol00+01"}
+var p2Bases = []string{"arch", "backup", "data.tar", "a", "par2", "set.vol", "with space", "UPPER", "x.par2", "vol00+01", "backup 100%", "50%done %d %s"}
 
 // singularScenario builds a set in which exactly two slices are destroyed and only the
 // recovery volumes holding exponent 0 and exponents >= 255 survive, with the two slices chosen
@@ -422,6 +422,30 @@ func staleScenario(rng *rand.Rand) *scenario {
 	return sc
 }
 
+// manyEqualScenario: exactly 256 and exactly 512 identical slices (a zero-filled file of 256 slices and a constant
+// file of 512 slices; counters of eight bits wrap there) next to an ordinary file; one ordinary slice is damaged.
+func manyEqualScenario(rng *rand.Rand) *scenario {
+	sc := &scenario{prot: map[string][]byte{}, s: 8, r: 3, g: 2, volLoss: "none"}
+	sc.names = []string{"zeros.bin", "ones.bin", "data.bin"}
+	sc.prot["zeros.bin"] = make([]byte, 256*8)
+	ones := make([]byte, 512*8)
+	for i := range ones {
+		ones[i] = 0x11
+	}
+	sc.prot["ones.bin"] = ones
+	d := make([]byte, 70)
+	rng.Read(d)
+	sc.prot["data.bin"] = d
+	sc.desc = "256 zero slices, 512 identical non-zero slices, one ordinary file"
+	sc.damage = func(rng *rand.Rand, sc *scenario, disk map[string][]byte) []string {
+		x := append([]byte{}, disk["data.bin"]...)
+		x[9] ^= 0x04
+		disk["data.bin"] = x
+		return []string{"flip a bit in data.bin"}
+	}
+	return sc
+}
+
 func runP2Big(args []string) error {
 	c := newCommon("p2big")
 	count := c.fs.Int("n", 0, "number of scenarios (0 = tier default)")
@@ -452,6 +476,8 @@ func runP2Big(args []string) error {
 			sc = limitScenario(rng)
 		} else if idx == 15 {
 			sc = staleScenario(rng)
+		} else if idx == 18 {
+			sc = manyEqualScenario(rng)
 		} else {
 			sc = makeScenario(rng, idx, thorough)
 		}
